@@ -220,7 +220,7 @@ impl Part for Histories {
         "histories"
     }
     fn cases(&self, tier: Tier) -> u32 {
-        tier.pick(30_000, 200_000)
+        tier.pick(60_000, 200_000)
     }
     fn strategy(&self, tier: Tier) -> BoxedStrategy<Case> {
         let maxops = tier.pick(14usize, 25usize);
